@@ -17,10 +17,17 @@ UTC = 'impl DateTime<Utc> {'
 TRAITS = r'''
 // trimmed trait pair: only the associated type is needed by the functions under contract
 trait Offset: Sized + Clone {}
-trait TimeZone: Sized + Clone { type Offset: Offset; }
+trait TimeZone: Sized + Clone {
+    type Offset: Offset;
+    fn from_offset(offset: &Self::Offset) -> Self;
+    fn offset_from_utc_datetime(&self, utc: &NaiveDateTime) -> Self::Offset;
+    // provided method of the real trait: declared here with its contract; its real default body is proved below as the free
+    // function TimeZone__from_utc_datetime (Verus rejects a default body that calls a function generic over the same trait)
+    fn from_utc_datetime(&self, utc: &NaiveDateTime) -> (r: DateTime<Self>)
+        ensures r.datetime == *utc;
+}
 #[derive(Copy, Clone)] struct Utc;
 impl Offset for Utc {}
-impl TimeZone for Utc { type Offset = Utc; }
 '''
 
 LEMMAS = r'''
@@ -61,6 +68,20 @@ impl<Tz: TimeZone> Clone for DateTime<Tz> where <Tz as TimeZone>::Offset: Clone 
     #[verifier::external_body] fn clone(&self) -> Self { unimplemented!() }
 }''')
     u.raw(P.DATE_VIEW_AX + P.TD_VIEW + P.TIME_VIEW + P.DT_VIEW + LEMMAS)
+    u.raw('''impl TimeZone for Utc {
+    type Offset = Utc;
+    #[verifier::external_body] fn from_offset(offset: &Utc) -> Utc { unimplemented!() }
+    #[verifier::external_body] fn offset_from_utc_datetime(&self, utc: &NaiveDateTime) -> Utc { unimplemented!() }
+    #[verifier::external_body] fn from_utc_datetime(&self, utc: &NaiveDateTime) -> (r: DateTime<Utc>) { unimplemented!() }
+}''')
+    # no impl in the crate overrides the provided method (otherwise its contract would be an unchecked assumption)
+    import glob as _g, os as _os, re as _re
+    from xtract import REPO as _REPO, AnchorLost as _AL
+    for _f in _g.glob(_os.path.join(_REPO, 'src', '**', '*.rs'), recursive=True):
+        if _f.endswith('offset/mod.rs'):
+            continue
+        if _re.search(r'fn from_utc_datetime\s*\(', open(_f).read()):
+            raise _AL('an impl overrides TimeZone::from_utc_datetime in ' + _f)
     u.const(FDT, 'UNIX_EPOCH_DAY')
     u.raw('impl TimeDelta {')
     for n in ['try_seconds', 'checked_add', 'checked_sub', 'try_days', 'num_days', 'num_seconds', 'subsec_nanos', 'new', 'neg', 'seconds', 'days']:
@@ -102,7 +123,17 @@ impl<Tz: TimeZone> Clone for DateTime<Tz> where <Tz as TimeZone>::Offset: Clone 
     for n in ['from_naive_utc_and_offset', 'naive_utc', 'timestamp', 'timestamp_subsec_nanos', 'timestamp_subsec_millis', 'timestamp_subsec_micros',
               'timestamp_millis', 'timestamp_micros', 'timestamp_nanos_opt']:
         u.prove(FDT, n, GEN, cid='DateTime::' + n)
-    u.raw('}\nimpl DateTime<Utc> {')
+    TZSUB = [('TimeZone::from_offset(&self.offset)', 'Tz::from_offset(&self.offset)', 'trait-qualified call written with the type parameter')]
+    u.prove(FDT, 'timezone', GEN, cid='DateTime::timezone', subst=TZSUB)
+    u.prove(FDT, 'with_timezone', GEN, cid='DateTime::with_timezone')
+    u.prove(FDT, 'to_utc', GEN, cid='DateTime::to_utc')
+    u.prove(FDT, 'checked_add_signed', GEN, cid='DateTime::checked_add_signed')
+    u.prove(FDT, 'checked_sub_signed', GEN, cid='DateTime::checked_sub_signed')
+    u.raw('}')
+    u.prove('src/offset/mod.rs', 'from_utc_datetime', 'pub trait TimeZone: Sized + Clone {', cid='TimeZone::from_utc_datetime', rename='TimeZone__from_utc_datetime',
+            replace_sig='fn TimeZone__from_utc_datetime<Tz: TimeZone>(this: &Tz, utc: &NaiveDateTime) -> DateTime<Tz>',
+            subst=[('self.offset_from_utc_datetime(utc)', 'this.offset_from_utc_datetime(utc)', 'R6 provided trait method proved as a free generic function (self -> this)')])
+    u.raw('impl DateTime<Utc> {')
     for n in ['from_timestamp', 'from_timestamp_millis', 'from_timestamp_micros', 'from_timestamp_nanos']:
         hints = []
         if n == 'from_timestamp_nanos':
